@@ -977,6 +977,12 @@ def _strip(tr):
 
 
 def run(chk):
+    _run_agent(chk)
+    from .c05_sched import run_sched
+    run_sched(chk)      # deterministic-scheduler exploration, validated by ActivationObs (see c05_sched.py)
+
+
+def _run_agent(chk):
     from concurrent.futures import ThreadPoolExecutor
     quick = chk.tier == 'quick'
     tier = 'quick' if quick else 'thorough'
@@ -1121,6 +1127,10 @@ def _judge(chk, recs, mode, result):
 
 def replay(chk, rep):
     d = rep['detail']
+    if 'sched_scenario' in d:
+        from .c05_sched import replay_sched
+        replay_sched(rep)
+        return 0
     if 'behaviour' in d:
         bad = _replay_one(d['behaviour'], d['shape'], d['seedstr'], verbose=True)
         print('shape:', d['shape'])
